@@ -96,11 +96,13 @@ def call_with_timeout(fn, secs, *a, **k):
 
 def _task(t):
     """Worker: explore the subtree of family `fi` under `prefix` for at most `slice_s`."""
-    fi, prefix, slice_s, hard_deadline, confirmed = t
+    fi, prefix, slice_s, hard_deadline, confirmed, paranoid_task = t
     fam = _FAMS[fi]
     reset_atoms()
     rt.ENTERED.clear()
     eng = core.Engine(max_forks=fam.max_forks, max_steps=fam.max_steps)
+    if paranoid_task:
+        eng.paranoid = max(eng.paranoid, 3)  # cross-check pre-solver shortcuts and prefix hand-over against z3
     t0 = time.time()
     out = dict(fi=fi, stats=None, notes=None, cands=[], leftovers=[], exhausted=False, error=None,
                unsupported={}, samples=[], entered=[])
@@ -214,7 +216,7 @@ def run_check(H, tier, seed, only_family=None, jobs=None, verbose=True):
                 fi, prefix = queue.pop(0)
                 # initial tasks get a short slice so the tree fans out quickly
                 s = 0.4 if len(prefix) == 0 else slice_s
-                ar = pool.apply_async(_task, ((fi, prefix, s, hard_deadline, tuple(confirmed.items())),))
+                ar = pool.apply_async(_task, ((fi, prefix, s, hard_deadline, tuple(confirmed.items()), (tid % (23 if tier == "quick" else 7) == 3)),))
                 inflight[tid] = (fi, ar)
                 tid += 1
             done = [k for k, (fi, ar) in inflight.items() if ar.ready()]
@@ -238,6 +240,8 @@ def run_check(H, tier, seed, only_family=None, jobs=None, verbose=True):
                     p["notes"][nk] = p["notes"].get(nk, 0) + nv
                 if r["error"]:
                     p["errors"].append(r["error"])
+                if r["stats"].get("engine_inconsistency"):
+                    p["errors"].append("engine inconsistency detected by the paranoid cross-checks (%d)" % r["stats"]["engine_inconsistency"])
                 for uk, uv in r["unsupported"].items():
                     if isinstance(uv, int):
                         unsupported[uk] = unsupported.get(uk, 0) + uv
@@ -272,7 +276,7 @@ def run_check(H, tier, seed, only_family=None, jobs=None, verbose=True):
         r = c["replay"]
         if r is None:
             spurious += 1
-            harness_errors.append("spurious model (does not reproduce on real code): %s %s" % (c["label"], _short(c["witness"], 300)))
+            harness_errors.append("spurious model (does not reproduce on real code): %s %s [%s]" % (c["label"], _short(c["witness"], 300), c.get("detail", "")[:3000]))
             continue
         sig, desc = r
         if sig == "HARNESS-ERROR" or sig == "replay-timeout":
